@@ -361,7 +361,12 @@ impl IdAware<AnyWorkId> for Glyph {
 impl Persistable for Glyph {
     fn read(from: &mut dyn Read) -> Self {
         let (name, bytes): (GlyphName, Vec<u8>) = bincode::deserialize_from(from).unwrap();
-        let glyph = FontRead::read(bytes.as_slice().into()).unwrap();
+        // an empty glyph is written as no bytes at all, which is not a readable glyf entry
+        let glyph = if bytes.is_empty() {
+            RawGlyph::Empty
+        } else {
+            FontRead::read(bytes.as_slice().into()).unwrap()
+        };
         Glyph { name, data: glyph }
     }
 
@@ -1120,6 +1125,16 @@ mod tests {
             ),
         );
         region
+    }
+
+    #[test]
+    fn empty_glyph_can_be_read_back() {
+        let glyph = Glyph::new("space".into(), RawGlyph::Empty);
+        let mut buf = Vec::new();
+        glyph.write(&mut buf);
+        let restored = Glyph::read(&mut buf.as_slice());
+        assert_eq!(restored.name, glyph.name);
+        assert!(matches!(restored.data, RawGlyph::Empty));
     }
 
     #[test]
